@@ -261,10 +261,16 @@ def make_case(fmt: str, kind: str, problem: str, place: str, variant: int, layou
     layout = dict(layout)
     layout['code_indent'] = code_indent
     layout['ci'] = max(0, code_indent + layout.get('ci_delta', 0))
+    flat = place in ('para', 'para2') or (problem in ('field', 'param') and fmt in ('epytext', 'restructuredtext')) or problem == 'none'
+    force_before = bool(layout.get('opening_text')) and not flat
     if fmt == 'epytext' and place == 'item' and layout.get('opening_text'):
         # epytext cannot tell the indentation of text on the opening line ("Lists must be indented")
         layout.update(opening_text=False, first_ws='', leading=[])
     before, blk, first_rel, prob_rel, after, msg = blocks_for(fmt, problem, place, variant, name, bool(layout.get('raw')), has_param)
+    if force_before and not before:
+        # a block with indented continuation lines must not sit on the opening line: cleandoc would take the
+        # continuation's indentation for the margin and change the structure of the docstring
+        before = [['Some plain text.']]
     value, pidx = docstring_value(layout, before, blk, after)
     case = {'fmt': fmt, 'kind': kind, 'problem': problem, 'place': place, 'variant': variant, 'layout': layout, 'k': k,
             'quiet': quiet, 'moddoc': moddoc, 'prelude': prelude or [], 'value': value, 'pidx': pidx,
